@@ -193,7 +193,7 @@ func H_C01_lists() {
 			v.Ss[pos] = vText("s", 1)
 		}
 	case 1:
-		v.Is = make([]int32, n)
+		v.Is = make([]int32, n, n+3) // spare capacity: the element count on the wire is the length
 		for i := range v.Is {
 			v.Is[i] = int32(i)
 		}
@@ -391,4 +391,63 @@ func H_C01_many_classes() {
 		same = vAnd(same, zClassV(got[i]) == zClassV(v[i]))
 	}
 	vAssert("equal", same)
+}
+
+type ZMapKinds struct {
+	S map[string]ZInner
+	P map[string]*ZInner
+	I map[string]int
+	L map[string][]int32
+	F map[int64]float64
+	U map[string]uint16
+}
+
+// H_C01_map_values: maps whose values are structs (by value and by pointer, the struct type reachable only through
+// the map), Go ints, lists, doubles keyed by longs, small unsigned ints.
+func H_C01_map_values() {
+	x := vInt32("x")
+	v := &ZMapKinds{}
+	which := vChoice("which", 6)
+	switch which {
+	case 0:
+		v.S = map[string]ZInner{"k": {N: x, S: "s"}}
+	case 1:
+		v.P = map[string]*ZInner{"k": {N: x, S: "s"}}
+	case 2:
+		v.I = map[string]int{"k": int(x)}
+	case 3:
+		v.L = map[string][]int32{"k": {1, x}}
+	case 4:
+		v.F = map[int64]float64{int64(x) << 16: 2.5}
+	case 5:
+		v.U = map[string]uint16{"k": uint16(x)}
+	}
+	typMap, nameMap := vExtract(v)
+	bs, err := ToBytes(v, nameMap)
+	vAssert("encode-noerr", err == nil)
+	out, err := ToObject(bs, typMap)
+	vAssert("decode-noerr", err == nil)
+	g, ok := out.(*ZMapKinds)
+	vAssert("type", ok)
+	vAssert("sizes", len(g.S) == len(v.S) && len(g.P) == len(v.P) && len(g.I) == len(v.I) && len(g.L) == len(v.L) && len(g.F) == len(v.F) && len(g.U) == len(v.U))
+	switch which {
+	case 0:
+		e, has := g.S["k"]
+		vAssert("struct-value", has && e.N == x && e.S == "s")
+	case 1:
+		e, has := g.P["k"]
+		vAssert("pointer-value", has && e != nil && e.N == x && e.S == "s")
+	case 2:
+		e, has := g.I["k"]
+		vAssert("int-value", has && e == int(x))
+	case 3:
+		e, has := g.L["k"]
+		vAssert("list-value", has && len(e) == 2 && e[0] == 1 && e[1] == x)
+	case 4:
+		e, has := g.F[int64(x)<<16]
+		vAssert("long-key", has && e == 2.5)
+	case 5:
+		e, has := g.U["k"]
+		vAssert("uint16-value", has && e == uint16(x))
+	}
 }
